@@ -233,6 +233,8 @@ func (c18) Run(plan interface{}, schedSeed uint64, replay []simrt.Choice, lenien
 					}
 					if n.Name() != "" || n.String() != "" {
 						tr.errs = append(tr.errs, fmt.Sprintf("released name not cleared: %q", n.Name()))
+					} else if *n != (namepool.Name{}) {
+						tr.errs = append(tr.errs, "released name not cleared: text empty but id or pool still set")
 					}
 				}
 				for _, op := range p.Progs[ti] {
